@@ -356,6 +356,19 @@ def n_into(ex, callee, a, env):
 @native(r'^<.* as From<.*>>::from$', 'From::from')
 def n_from(ex, callee, a, env):
     m = re.match(r'^<(.*) as From<(.*)>>::from$', callee)
+    di, si = int_info(m.group(1)), int_info(m.group(2))
+    if di and si and m.group(1) != 'bool':
+        # lossless integer widening (u64::from(u32), i32::from(u8), uN::from(bool) ...)
+        v = deref(a[0])
+        if isinstance(v, bool):
+            return int(v)
+        if isinstance(v, int):
+            return v
+        if z3.is_bool(v):
+            return z3.If(v, bvval(1, di[1]), bvval(0, di[1]))
+        if z3.is_bv(v) and v.size() < di[1]:
+            return z3.SignExt(di[1] - v.size(), v) if si[0] else z3.ZeroExt(di[1] - v.size(), v)
+        return v
     return convert(ex, a[0], m.group(1), env)
 
 
@@ -2008,6 +2021,10 @@ def n_int_try_from(ex, callee, a, env):
         return Ok(v) if dmin <= v <= dmax else err
     if not z3.is_bv(v):
         raise Unsupported(f'integer conversion of {v!r}')
+    if v.size() < sw:
+        v = z3.SignExt(sw - v.size(), v) if ss else z3.ZeroExt(sw - v.size(), v)
+    elif v.size() > sw:
+        v = z3.Extract(sw - 1, 0, v)
     conds = []
     if dmin > smin:
         conds.append((v >= bvval(dmin & ((1 << sw) - 1), sw)) if ss else z3.UGE(v, bvval(max(dmin, 0), sw)))
